@@ -18,7 +18,7 @@ import inspect
 import sys
 
 from .ty import (Any, Assoc, Bool, Bytes, Dict, EnumOf, Int, NodeTy, NoneT, Opaque, Opt, Rec, SeqOf, Str, TupleOf, Ty)  # noqa: F401
-from .ty import ClassOf  # noqa: F401
+from .ty import ClassOf, UFCallable  # noqa: F401
 
 REGISTRY: dict[str, "Contract"] = {}
 LEMMAS: list["Lemma"] = []
